@@ -25,7 +25,9 @@ META = dict(
          'for SimplifyPath on 5-point paths), open and closed, '
          'plus seeded longer paths with |coordinates| up to 2^40; the property clauses themselves are evaluated on the '
          "implementation's outputs with predicates extracted from Coq. The models mirror clipper.h with the four C20 repairs "
-         '(RDP end handling, SimplifyPath 3-point paths and epsilon^2 clamp, TrimCollinear open 2-point path).',
+         '(RDP end handling, SimplifyPath 3-point paths and epsilon^2 clamp, TrimCollinear open 2-point path). StripNearEqual / '
+         'StripDuplicates: all paths of <=4 (thorough <=5) lattice points x 6 tolerances, and seeded fan shapes (several vertices '
+         'within the tolerance of the first vertex but not of one another) for the Path64, PathD, Paths64 and PathsD overloads.',
     technique='Coq proof (models of the loops) + exact model/implementation correspondence + extracted specification predicates',
     category='proof')
 
@@ -114,6 +116,72 @@ def random_requests(ctx, n_cases):
             reqs.append('BOUNDS %s' % ps)
             reqs.append('TRANS %d %d %s' % (r.range(-1 << 41, 1 << 41), r.range(-1 << 41, 1 << 41), ps))
             reqs.append('LEN %d %s' % (c, ps))
+    return reqs
+
+
+def fmt_pathd(p):
+    return ' '.join([str(len(p))] + ['%s %s' % (hx(x), hx(y)) for x, y in p])
+
+
+def fan_requests(ctx, n_shapes):
+    """StripNearEqual / StripDuplicates shapes: a first vertex, optionally 1-3 leading vertices near it, a ring of far
+    vertices (one of them with its own satellites), and 2-4 trailing vertices on a circle of radius < tolerance around the
+    FIRST vertex, spread so that they are pairwise farther apart than the tolerance (the forward pass keeps them all, the
+    closed clean-up has to pop every one of them).  Open and closed, Path64 / PathD / Paths overloads, max_dist_sqrd
+    = (tol * {0, 0.5, 1, 1.5, 3})^2; the same shapes with exact copies of the first vertex for StripDuplicates."""
+    r = ctx.rng.fork(3)
+    reqs = []
+
+    def circle(cx, cy, rad, cnt, phase):
+        return [(cx + rad * math.cos(phase + 2 * math.pi * i / cnt), cy + rad * math.sin(phase + 2 * math.pi * i / cnt)) for i in range(cnt)]
+
+    def shape(tol):
+        fx, fy = r.range(-40, 40) * tol * 3.0, r.range(-40, 40) * tol * 3.0
+        p = [(fx, fy)]
+        lead = r.choice([0, 0, 1, 2, 3])
+        if lead:
+            p += circle(fx, fy, tol * r.choice([0.6, 0.8, 0.95]), lead, r.range(0, 628) / 100.0)
+        k = r.range(1, 5)
+        body = circle(fx, fy, tol * r.choice([12.0, 30.0]), k + 1, r.range(0, 628) / 100.0)[:k]
+        sat = r.range(0, k - 1) if r.chance(1, 2) else -1
+        for j, b in enumerate(body):
+            p.append(b)
+            if j == sat:
+                p += circle(b[0], b[1], tol * 0.8, r.range(2, 3), r.range(0, 628) / 100.0)
+        trail = r.choice([1, 2, 2, 3, 3, 4])
+        p += circle(fx, fy, tol * r.choice([0.75, 0.9, 0.99]), trail, r.range(0, 628) / 100.0)
+        ctx.hist('fan_trailing', trail)
+        ctx.hist('fan_leading', lead)
+        return p
+
+    def to_int(p):
+        return [(int(round(x)), int(round(y))) for x, y in p]
+    for i in range(n_shapes):
+        tol = r.choice([2.0, 5.0, 5.0, 50.0, 1000.0, float(1 << 30)])
+        p = shape(tol)
+        d2 = (tol * r.choice([0.0, 0.5, 1.0, 1.0, 1.0, 1.5, 3.0])) ** 2
+        ctx.hist('fan_tol', 'tol=%g' % tol)
+        for c in (0, 1):
+            reqs.append('SNEAR %s %d %s' % (hx(d2), c, fmt_path(to_int(p))))
+            small = [(x / tol / 8.0, y / tol / 8.0) for x, y in p]            # PathD with tolerance 1/8
+            reqs.append('SNEARD %s %d %s' % (hx(d2 / tol / tol / 64.0), c, fmt_pathd(small)))
+            if i % 4 == 0:
+                others = [to_int(shape(tol)) for _ in range(r.range(0, 2))] + r.choice([[], [[]], [[(3, 4)]]])
+                ps = [to_int(p)] + others
+                reqs.append('SNEARS %s %d %d %s' % (hx(d2), c, len(ps), ' '.join(fmt_path(q) for q in ps)))
+                psd = [small, [(x + 0.25, y - 0.5) for x, y in small]]
+                reqs.append('SNEARSD %s %d %d %s' % (hx(d2 / tol / tol / 64.0), c, len(psd), ' '.join(fmt_pathd(q) for q in psd)))
+        # control: the same skeleton with exact copies of the first vertex (and of a middle vertex) for StripDuplicates
+        ip = to_int(p)
+        f0 = ip[0]
+        body = [q for q in ip if (q[0] - f0[0]) ** 2 + (q[1] - f0[1]) ** 2 > (3 * tol) ** 2] or [(f0[0] + 7, f0[1])]
+        dup = [f0] * r.range(1, 3) + body[:1] * r.range(1, 3) + body[1:] + [f0] * r.range(1, 4)
+        if r.chance(1, 3):
+            dup = dup[:-1] + [body[0], f0]
+        for c in (0, 1):
+            reqs.append('SDUP %d %s' % (c, fmt_path(dup)))
+            if i % 4 == 0:
+                reqs.append('SDUPS %d 3 %s %s %s' % (c, fmt_path(dup), fmt_path(ip), fmt_path([f0, f0])))
     return reqs
 
 
@@ -378,6 +446,17 @@ def run(ctx):
         ctx.hist('exhaustive_lines_by_len', n, res.lines - before)
         ctx.log('exhaustive n=%d over %dx%d: %d lines, failing lines so far %d' % (n, L, L, res.lines - before, res.nfail))
 
+    # 2b. StripNearEqual / StripDuplicates: exhaustive lattice (tolerances^2 in {0,1,2,3,5,10}, open/closed) ...
+    for n in range(0, nmax):
+        before = res.lines
+        run_enum(ctx, exe, orc, 'N', n, res)
+        ctx.hist('exhaustive_strip_lines_by_len', n, res.lines - before)
+    # ... and "fan" shapes (several vertices within the tolerance of the first one but not of one another), all overloads
+    fans = fan_requests(ctx, 600 if ctx.quick else 6000)
+    run_requests(ctx, exe, orc, fans, res)
+    ctx.sample('SNEAR 0x1.9p+4 1 6 0 0 100 0 100 100 0 100 0 4 4 0')
+    ctx.log('strip lattice (<=%d points) + %d fan-shape requests done, failing lines %d' % (nmax - 1, len(fans), res.nfail))
+
     # 3. seeded random longer paths
     rnd = random_requests(ctx, 6000 if ctx.quick else 60000)
     run_requests(ctx, exe, orc, rnd, res)
@@ -393,12 +472,18 @@ def run(ctx):
     nprop = decide(ctx, res)
     if (res.corr or not pr['ok']) and nprop == 0:
         # search: next larger exhaustive scope for the affected functions (all of them after a proof break)
-        letters = ''.join(sorted(set({'trim': 'T', 'simp': 'S', 'rdp': 'R'}.get(c, '') for c in res.corr))) or ('TSR' if not pr['ok'] else '')
+        lmap = {'trim': 'T', 'simp': 'S', 'rdp': 'R', 'snear': 'N', 'sneard': 'N', 'snears': 'N', 'snearsd': 'N', 'sdup': 'N', 'sdups': 'N'}
+        letters = ''.join(sorted(set(lmap.get(c, '') for c in res.corr))) or ('NTSR' if not pr['ok'] else '')
         if not thorough:
             res2 = Results()
             if 'S' in letters:
                 ctx.log('search: exhaustive n=5 for S with the full epsilon grid')
                 run_enum(ctx, exe, orc, 'S', 5, res2)
+            if 'N' in letters:
+                ctx.log('search: exhaustive n=5 for StripNearEqual/StripDuplicates, 6000 fan shapes')
+                run_enum(ctx, exe, orc, 'N', 5, res2)
+                run_requests(ctx, exe, orc, fan_requests(ctx, 6000), res2)
+            letters = letters.replace('N', '')
             if letters:
                 l6 = letters.replace('S', 's')      # 6-point paths: SimplifyPath with the two-value grid (full grid: thorough tier)
                 ctx.log('search: exhaustive n=6 for %s' % l6)
@@ -416,10 +501,14 @@ def run(ctx):
     ctx.cov['distinct_nontrivial'] = res.nontrivial
     ctx.cov['rule'] = ('every path of 0..%d points over the %dx%d lattice x {TrimCollinear open/closed, SimplifyPath eps in %s open/closed '
                        '(quick tier, 5-point paths: eps in {0.5, 2}), '
-                       'RamerDouglasPeucker same eps} (enumerated inside the harness, no duplicates), plus seeded random paths of 0..150 '
+                       'RamerDouglasPeucker same eps} and, for 0..%d points, x {StripNearEqual max_dist_sqrd in {0,1,2,3,5,10} open/closed, '
+                       'StripDuplicates open/closed} (enumerated inside the harness, no duplicates), plus seeded fan shapes for '
+                       'StripNearEqual (2-4 trailing and 0-3 leading vertices within the tolerance of the first vertex, pairwise farther '
+                       'apart; Path64, PathD, Paths64, PathsD; open/closed; tolerance factors 0..3) and their exact-duplicate analogues for '
+                       'StripDuplicates, plus seeded random paths of 0..150 '
                        'points (collinear runs, repeated points, spikes, rings with first==last, scales 1..2^34*64) for all utilities and '
                        'random scalar cases for PerpendicDistFromLineSqrd/IsCollinear/Ellipse/double arithmetic; a line is non-trivial when the '
-                       "implementation's output differs from its input (or for scalar leaves: always)" % (nmax, L, L, EPS_GRID))
+                       "implementation's output differs from its input (or for scalar leaves: always)" % (nmax, L, L, EPS_GRID, nmax - 1))
     ctx.assumptions += [
         'int64 differences taken by IsCollinear/PerpendicDistFromLineSqrd do not overflow (|coordinates| <= 2^62); models use unbounded Z',
         'epsilon >= 0 and not NaN (the quantifier of the property); +inf and values whose square overflows are included',
